@@ -12,7 +12,7 @@ import json
 import random
 
 import idcommon as ic
-from common import NCPU, Outcome, drive, run_parallel, seed, workdir
+from common import NCPU, NSHARDS, shard_hashseed, Outcome, drive, run_parallel, seed, workdir
 
 PID = "C17"
 
@@ -25,16 +25,16 @@ def warm():
 
 
 def run_y0(wd, items):
-    shards = [items[i::NCPU] for i in range(NCPU)]
+    shards = [items[i::NSHARDS] for i in range(NSHARDS)]
     jobs = []
     for i, sh in enumerate(shards):
         if sh:
             f = wd / f"c17-in{i}.json"
             f.write_text(json.dumps([{"g": it["g"], "gid": it["gid"], "qs": [q[:3] + q[4:5] for q in it["qs"]]} for it in sh]))
-            jobs.append((f, wd / f"c17-out{i}.json"))
+            jobs.append((f, wd / f"c17-out{i}.json", i))
 
     def one(job):
-        drive("drive_tian.py", [str(job[0]), str(job[1])])
+        drive("drive_tian.py", [str(job[0]), str(job[1])], hashseed=shard_hashseed(job[2]))
         return json.loads(job[1].read_text())
 
     return [g for r in run_parallel(one, jobs) for g in r]
